@@ -96,3 +96,25 @@ TABLE["C01"]["pipelines"].append(HIST_PIPE)
 TABLE["C01"]["fail_keys"] = ["c01.", "__nokey__"]
 TABLE["C01"]["rule"] += "; plus the install/drop histories of C02 (entries at page offsets 4093/4091 spanning two pages, 5 address regions from 0x10000 to the top of user space, near and far fakes, six installation flavours): the entry bytes are decoded and followed through the trampoline, and the target is really called"
 TABLE["C01"]["level_text"] += " Theorem C01_reach lifts this to the installed machine state for every placement (incl. page-spanning entries): from func, at most four instructions reach exactly fake, only rip/rax change, and the install does not fault."
+
+CNT_PIPE = {"name": "counter", "cmd": ["counter"], "n_quick": 150, "n_thorough": 3000, "timeout": 900, "timeout_thorough": 3400}
+TABLE["C06"] = {
+    "pipelines": [CNT_PIPE],
+    "fail_keys": ["c06."],
+    "trusted_base": TB_COMMON + ["AtomicUsize::fetch_add is atomic, so every thread interleaving is a linearisation (a list of calls)", "the real fake! macro and CallCountVerifier run through the shadow crate; panic messages classified by substring"],
+    "rule": "every N in 0..6 (0..64 thorough) x k in 0..N+2 matching calls with PRNG-inserted non-matching calls on one thread (exact sequence compared), then PRNG (N, k) split over 2-16 threads behind a barrier (counts, per-thread order, exit verdict compared); thorough adds a 16-thread 100k-call hammer; lines tagged life belong to C07. Distinct by full line; non-trivial = driver tag other than bad-line",
+    "assumptions": ["atomicity of fetch_add", "panics in safe-ABI fakes unwind"],
+    "filter_prefix": ["cnt"],
+    "level_text": "Theorems over all N and all schedules (lists of calls = linearisations over any number of threads): a matching call is admitted iff fewer than N matching calls precede it (C06_admit), non-matching calls always panic and are never counted (C06_reject, C06_final), outcome counts depend only on k and N (C06_split), exit verdict panics iff k != N naming both and never while unwinding (C06_exit, tied to verifier.rs by the translator). Each macro arm is linked to this counter model by C08. Correspondence: real macro, real threads.",
+    "level_note": "Trusted: Lean kernel, atomicity assumption, translator's reading of verifier.rs; liveness/fairness not claimed.",
+}
+TABLE["C07"] = {
+    "pipelines": [CNT_PIPE],
+    "fail_keys": ["c07."],
+    "trusted_base": TB_COMMON + ["a fake! call site owns one static counter (macro hygiene of `static FAKE_COUNTER` inside the expansion block)"],
+    "rule": "PRNG sequences of 2-8 (2-50 thorough) consecutive injector lifetimes that evaluate the same fake!(..., times: N) source line, call counts around N (N, N-1, random up to N+2) with occasional non-matching calls; every call outcome and every scope-exit verdict compared; lines tagged cnt belong to C06",
+    "assumptions": ["one installation of a given call site at a time"],
+    "filter_prefix": ["life"],
+    "level_text": "Theorem C07_local: for every sequence of lifetimes evaluating the same call site and any counter value left behind, each lifetime's call outcomes and exit verdict equal those it would have alone, because installation resets the counter (fact extracted from will_execute by the translator: C07_source_resets); C07_without_reset_false documents the pre-fix defect. Correspondence: real macro over consecutive lifetimes in one process.",
+    "level_note": "Trusted: Lean kernel, translator's pattern for the reset (counter.store(0, ..) before will_execute_raw).",
+}
